@@ -1,0 +1,291 @@
+//go:build verif
+
+package spdxexp
+
+// Contracts for the deductive verifier govc (see /verif/DESIGN.md).  This file
+// contains comments only; it is compiled only with the build tag "verif" and
+// adds nothing executable to the package.
+//
+// Clause syntax: Go expressions plus ==>, <==>, forall/exists, old(e), result,
+// fresh(x) (allocated by this activation), allocated(x), arr(s) (backing array
+// of a slice), arrs(ss) (backing arrays of all elements of a slice of slices).
+// Tags in [..] name the properties of /verif/properties.jsonl a clause serves.
+
+// ---------------------------------------------------------------------------
+// Representation invariant of nodes: every node object that exists is
+// well-formed (nodes are immutable after construction, so this is a global
+// heap invariant; it is checked at every call, loop head and return of every
+// function that writes node memory).
+
+//@ typeinv node(n): (n.role == 0 || n.role == 1 || n.role == 2)
+//@   && (n.role == 0 ==> n.exp != nil && n.exp.left != nil && n.exp.right != nil && (n.exp.conjunction == "and" || n.exp.conjunction == "or"))
+//@   && (n.role == 2 ==> n.lic != nil)
+//@   && (n.role == 1 ==> n.ref != nil)
+
+//@ pred leaf(n *node) = n != nil && n.role != 0
+//@ pred okAlt(s []*node) = len(s) >= 1 && forall k :: 0 <= k && k < len(s) ==> leaf(s[k])
+//@ pred okNest(r [][]*node) = forall i :: 0 <= i && i < len(r) ==> okAlt(r[i])
+//@ pred allLeaves(s []*node) = forall k :: 0 <= k && k < len(s) ==> leaf(s[k])
+//@ pred freshNest(r [][]*node) = (r == nil || fresh(r)) && forall i :: 0 <= i && i < len(r) ==> fresh(r[i])
+
+//@ pred okStream(t *tokenStream) = t != nil && 0 <= t.index && t.index <= len(t.tokens)
+//@ pred okExp(e *expressionStream) = e != nil && 0 <= e.index && e.index <= len(e.expression)
+
+// ---------------------------------------------------------------------------
+// parse.go
+
+//@ func parse
+//@   modifies nothing
+//@   ensures[C03,C04] !isErr(result1) ==> result0 != nil
+//@   ensures[C04] isErr(result1) ==> result0 == nil
+//@ end
+
+//@ func (*tokenStream).parseExpression
+//@   requires okStream(t)
+//@   modifies t.index, t.err
+//@   ensures[C03] okStream(t)
+//@ end
+
+//@ func (*tokenStream).parseAnd
+//@   requires okStream(t)
+//@   modifies t.index, t.err
+//@   ensures[C03] okStream(t)
+//@ end
+
+//@ func (*tokenStream).parseAtom
+//@   requires okStream(t)
+//@   modifies t.index, t.err
+//@   ensures[C03] okStream(t)
+//@ end
+
+//@ func (*tokenStream).parseParenthesizedExpression
+//@   requires okStream(t)
+//@   modifies t.index, t.err
+//@   ensures[C03] okStream(t)
+//@ end
+
+// ---------------------------------------------------------------------------
+// scan.go
+
+//@ func scan
+//@   modifies nothing
+//@   loop 0:
+//@     invariant[C03] okExp(exp) && fresh(exp)
+//@     invariant[C03] tokens == nil || fresh(tokens)
+//@ end
+
+//@ func (*expressionStream).parseToken
+//@   requires okExp(exp) && exp.index < len(exp.expression)
+//@   modifies exp.index, exp.err, exp.expression
+//@   ensures[C03] okExp(exp)
+//@ end
+
+//@ func (*expressionStream).readOperator
+//@   requires okExp(exp)
+//@   modifies exp.index, exp.err
+//@   ensures[C03] okExp(exp)
+//@   ensures[C03] result == nil && !isErr(exp.err) ==> exp.index == old(exp.index)
+//@   ensures[C03] !isErr(old(exp.err)) && result != nil ==> !isErr(exp.err)
+//@   loop 0:
+//@     invariant[C03] okExp(exp) && exp.err == old(exp.err)
+//@     invariant[C03] len(op) == 0 ==> exp.index == old(exp.index)
+//@ end
+
+//@ func (*expressionStream).readID
+//@   requires okExp(exp)
+//@   modifies exp.index, exp.err
+//@   ensures[C03] okExp(exp)
+//@   ensures[C03] exp.index == old(exp.index) + len(result)
+//@   ensures[C03] isErr(exp.err) <==> (isErr(old(exp.err)) || len(result) == 0)
+//@ end
+
+//@ func (*expressionStream).readDocumentRef
+//@   requires okExp(exp)
+//@   modifies exp.index, exp.err
+//@   ensures[C03] okExp(exp)
+//@   ensures[C03] result == nil && !isErr(exp.err) ==> exp.index == old(exp.index)
+//@ end
+
+//@ func (*expressionStream).readLicenseRef
+//@   requires okExp(exp)
+//@   modifies exp.index, exp.err
+//@   ensures[C03] okExp(exp)
+//@   ensures[C03] result == nil && !isErr(exp.err) ==> exp.index == old(exp.index)
+//@ end
+
+//@ func (*expressionStream).readLicense
+//@   requires okExp(exp)
+//@   modifies exp.index, exp.err, exp.expression
+//@   ensures[C03] okExp(exp)
+//@   ensures[C03] result != nil || isErr(exp.err)
+//@ end
+
+//@ func (*expressionStream).normalizeLicense
+//@   requires okExp(exp) && len(license) <= exp.index
+//@   modifies exp.index, exp.expression
+//@   ensures[C03] okExp(exp)
+//@   ensures[C03] result == nil ==> exp.expression == old(exp.expression)
+//@ end
+
+//@ func licenseLookup
+//@   modifies nothing
+//@ end
+
+//@ func deprecatedLicenseLookup
+//@   modifies nothing
+//@ end
+
+// ---------------------------------------------------------------------------
+// license.go
+
+//@ func inLicenseList
+//@   modifies nothing
+//@ end
+
+//@ func getLicenseRange
+//@   modifies nothing
+//@ end
+
+// ---------------------------------------------------------------------------
+// node.go
+
+//@ func (*nodePair).licensesAreCompatible
+//@   requires nodes != nil && nodes.firstNode != nil && nodes.secondNode != nil
+//@   modifies nothing
+//@ end
+
+//@ func (*nodePair).licenseRefsAreCompatible
+//@   requires nodes != nil && nodes.firstNode != nil && nodes.secondNode != nil
+//@   modifies nothing
+//@ end
+
+//@ func sortLicenses$1
+//@   requires 0 <= i && i < len(nodes) && 0 <= j && j < len(nodes)
+//@   requires forall k :: 0 <= k && k < len(nodes) ==> nodes[k] != nil
+//@   modifies nothing
+//@ end
+
+// ---------------------------------------------------------------------------
+// satisfies.go, extracts.go, helpers.go
+
+//@ func ValidateLicenses
+//@   modifies nothing
+//@   loop 0:
+//@     invariant[C03,C13] fresh(invalidLicenses)
+//@ end
+
+//@ func Satisfies
+//@   modifies nothing
+//@ end
+
+//@ func ExtractLicenses
+//@   modifies nothing
+//@   loop 0:
+//@     invariant[C03,C13] fresh(licenses)
+//@ end
+
+//@ func stringsToNodes
+//@   modifies nothing
+//@   ensures[C03] !isErr(result1) ==> fresh(result0) && len(result0) == len(licenseStrings) && allLeaves(result0)
+//@   loop 0:
+//@     invariant[C03] fresh(nodes) && len(nodes) == len(licenseStrings)
+//@     invariant[C03] forall k :: 0 <= k && k < $i ==> leaf(nodes[k])
+//@ end
+
+//@ func isCompatible
+//@   requires allLeaves(expressionPart) && allLeaves(allowed)
+//@   modifies nothing
+//@ end
+
+//@ func (*node).expand
+//@   requires n != nil
+//@   modifies nothing
+//@   ensures[C03] okNest(result) && len(result) >= 1
+//@ end
+
+//@ func (*node).expandOr
+//@   requires n != nil && n.role == 0
+//@   modifies nothing
+//@   ensures[C03] okNest(result) && len(result) >= 1 && freshNest(result)
+//@ end
+
+//@ func expandOrTerm
+//@   requires term != nil && okNest(result)
+//@   modifies arr(result)
+//@   ensures[C03] okNest(result0) && len(result0) >= len(result) + 1
+//@   ensures[C03] fresh(result0) || arr(result0) == arr(result)
+//@   ensures[C03] forall i :: 0 <= i && i < len(result0) ==> fresh(result0[i]) || (i < len(result) && result0[i] == old(result[i]))
+//@ end
+
+//@ func (*node).expandAnd
+//@   requires n != nil && n.role == 0
+//@   modifies nothing
+//@   ensures[C03] okNest(result) && len(result) >= 1 && freshNest(result)
+//@ end
+
+//@ func expandAndTerm
+//@   requires term != nil
+//@   modifies nothing
+//@   ensures[C03] okNest(result) && len(result) >= 1 && freshNest(result)
+//@ end
+
+//@ func appendTerms
+//@   requires okNest(left) && okNest(right)
+//@   modifies nothing
+//@   ensures[C03] okNest(result) && freshNest(result)
+//@   ensures[C03] len(left) >= 1 && len(right) >= 1 ==> len(result) >= 1
+//@   loop 0:
+//@     invariant[C03] okNest(result) && freshNest(result)
+//@     invariant[C03] len(left) >= 1 && $i >= 1 ==> len(result) >= 1
+//@   loop 1:
+//@     invariant[C03] okNest(result) && freshNest(result)
+//@     invariant[C03] len(left) >= 1 && ($i0 >= 1 || $i >= 1) ==> len(result) >= 1
+//@ end
+
+//@ func mergeTerms
+//@   requires okNest(left) && okNest(right)
+//@   modifies arr(left), arrs(left)
+//@   ensures[C03] okNest(result) && result == left
+//@   ensures[C03] forall i :: 0 <= i && i < len(left) ==> fresh(result[i]) || arr(result[i]) == arr(old(left[i]))
+//@   loop 0:
+//@     invariant[C03] okNest(left) && okNest(right)
+//@     invariant[C03] forall i :: 0 <= i && i < len(left) ==> fresh(left[i]) || arr(left[i]) == arr(old(left[i]))
+//@   loop 1:
+//@     invariant[C03] okNest(left) && okNest(right) && okAlt(r)
+//@     invariant[C03] forall i :: 0 <= i && i < len(left) ==> fresh(left[i]) || arr(left[i]) == arr(old(left[i]))
+//@ end
+
+//@ func sortAndDedup
+//@   requires allLeaves(nodes)
+//@   modifies arr(nodes)
+//@   ensures[C03] allLeaves(nodes)
+//@   loop 0:
+//@     invariant[C03] 1 <= prev && prev <= curr && curr <= len(nodes) && allLeaves(nodes)
+//@ end
+
+//@ func deepSort
+//@   requires okNest(nodes2d)
+//@   modifies arr(nodes2d), arrs(nodes2d)
+//@   ensures[C03] result == nodes2d && okNest(result)
+//@   loop 0:
+//@     invariant[C03] okNest(nodes2d)
+//@ end
+
+//@ func deepSort$1
+//@   requires 0 <= i && i < len(nodes2d) && 0 <= j && j < len(nodes2d) && okNest(nodes2d)
+//@   modifies nothing
+//@ end
+
+//@ func flatten
+//@   requires okNest(lists)
+//@   modifies nothing
+//@   ensures[C03] allLeaves(result)
+//@   loop 0:
+//@     invariant[C03,C13] (res == nil || fresh(res)) && allLeaves(res)
+//@ end
+
+//@ func removeDuplicateStrings
+//@   modifies nothing
+//@   loop 0:
+//@     invariant[C03,C13] fresh(list)
+//@ end
